@@ -198,6 +198,10 @@ def _gen_op(r, world, kind):
         return ("test", r.randrange(len(world["rules"])), di, how)
     if kind == "get":
         how2 = r.choice(["raw", "data", "data.get"] + (["shared_data", "shared_data.get"] if world["datas"] else []))
+        pi_ = r.randrange(len(world["paths"]))
+        pt_ = world["paths"][pi_]
+        if pt_[0] == "path" and pt_[2] is None and pt_[3] is None and (len(pt_) < 5 or pt_[4] is None) and all(x[0] == "prim" for x in pt_[1]) and r.random() < 0.5:
+            return ("get", pi_, r.randrange(nd), r.random() < 0.5, "data.get_parts")
         if how2.startswith("shared_data"):
             di = r.randrange(len(world["datas"]))
         else:
